@@ -541,6 +541,10 @@ func c01rest(c *an.Ctx) {
 		}
 	})
 
+	c.Check("R-BOOL", "schemabuilder batch adapter decision tables: the batch function receives (ctx?, one entry per source in the form its signature wants, args?, selectionSet?) in that order; its error is returned first; missing / nil results are errors for non-nullable fields and null otherwise; present results are stored per source", 6, func(o *an.O) {
+		ruleBatchAdapterTables(c, o)
+	})
+
 	c.Check("R-PAIR", "schemabuilder batch adapter: results are mapped back by the index that was handed out for the same source", 2, func(o *an.O) {
 		const sb = "graphql/schemabuilder"
 		prep := c.NeedFunc(sb, "(*batchFuncContext).prepareResolveArgs")
